@@ -301,6 +301,10 @@ impl Server for Fake {
 
 fn run(ctx: &mut Ctx) -> Verdict {
     crate::ssim::quiet_panics();
+    // one run in 150: the real transports - a hello or reply cut short, then the peer goes away
+    if ctx.tape.weighted(&[149, 1]) == 1 {
+        return super::c06::truncated_then_closed(ctx);
+    }
     let target = *ctx.tape.choose(&[Target::Reply, Target::Reply, Target::Hello, Target::Candidates, Target::Installed]);
     match target {
         Target::Candidates | Target::Installed => {
@@ -507,16 +511,16 @@ fn run(ctx: &mut Ctx) -> Verdict {
 
 pub static C14: PropSpec = PropSpec {
     id: "C14",
-    simulator: "S-sim (+ reader facades)",
+    simulator: "S-sim (+ reader facades, + R-sim)",
     level: "exploration",
     runs: |t| if t == Tier::Thorough { 12_000_000 } else { 120_000 },
     enumerated: |_| 0,
     run,
-    rule: "a session with 1-4 outstanding get requests (each awaited in its own task, replies in order or permuted); the server hello or the reply to one request is replaced by a mutation of the valid message: truncation at any offset, splice with another message, 1-3 byte flips, duplicated region, huge / negative message-id, invalid UTF-8, wrong namespace, 64 KiB (thorough: 4 MiB) of text, random bytes, empty message, deep nesting, huge numbers, two roots, duplicate attributes, DOCTYPE + comments, the text of one leaf or the value of one attribute replaced by a generated value (0-140 ASCII bytes followed by 0-59 repetitions of a 2-, 3- or 4-byte character, blank, entity or character reference). The request whose reply is mutated is one of get, lock, open-, close-, load- and commit-configuration, and its valid base reply one of that operation's shapes (data, <ok/>, empty, warning, load-configuration-results with a warning and an error count) or a complete <rpc-error> reply, so that every reply reader is reached. The same mutations are applied to running / ephemeral configuration documents fed to the agent's readers. Non-trivial = a mutation was delivered; distinct = distinct event-log hash",
+    rule: "one run in 150: over the real TLS / SSH / local transport the hello or a reply is cut short at a seeded offset and the peer then closes (every close kind of C07) with 1-3 requests outstanding; every pending and one further call must fail within 5 virtual seconds, a spinning receive loop is caught by the watchdog. Otherwise: a session with 1-4 outstanding get requests (each awaited in its own task, replies in order or permuted); the server hello or the reply to one request is replaced by a mutation of the valid message: truncation at any offset, splice with another message, 1-3 byte flips, duplicated region, huge / negative message-id, invalid UTF-8, wrong namespace, 64 KiB (thorough: 4 MiB) of text, random bytes, empty message, deep nesting, huge numbers, two roots, duplicate attributes, DOCTYPE + comments, the text of one leaf or the value of one attribute replaced by a generated value (0-140 ASCII bytes followed by 0-59 repetitions of a 2-, 3- or 4-byte character, blank, entity or character reference). The request whose reply is mutated is one of get, lock, open-, close-, load- and commit-configuration, and its valid base reply one of that operation's shapes (data, <ok/>, empty, warning, load-configuration-results with a warning and an error count) or a complete <rpc-error> reply, so that every reply reader is reached. The same mutations are applied to running / ephemeral configuration documents fed to the agent's readers. Non-trivial = a mutation was delivered; distinct = distinct event-log hash",
     components: &[
         ("netconf session + message readers", "real"),
         ("junos-agent policies/fetch.rs readers via the verif facade", "real"),
-        ("transport", "stub: in-memory (delivers delimiter-terminated messages, like the real ones)"),
+        ("transport", "stub: in-memory (delivers delimiter-terminated messages, like the real ones); one run in 150: the real TLS / SSH / local transports against the scripted R-sim peer"),
     ],
     assumptions: &[
         "a mutation whose bytes name another outstanding request's message-id is skipped (its effect on that request would be legitimate)",
